@@ -313,7 +313,11 @@ func pnftOps(e *pnftEnv, v pnftVariant) []explore.Op {
 		return txOp(fmt.Sprintf("CreateDenom(%s,%s)", q(id), lbl), s(by), pnfttypes.NewMsgCreateDenomRequest(id, "SYM", "name-"+id, "desc", "uri", "hash", spelled, "data"))
 	}
 	mint := func(denom, id string, by *world.Account) explore.Op {
-		return txOp(fmt.Sprintf("Mint(%s,%s,%s)", q(denom), q(id), by.Name), s(by), pnfttypes.NewMsgMintPNFTRequest(denom, id, "tok-"+by.Name, "tdesc", "turi", "thash", by.Bech, "tdata"))
+		desc, uri, hash, data := "tdesc", "turi", "thash", "tdata"
+		if id == "tt" { // optional fields left empty: in every listing this token follows one that has them set
+			desc, uri, hash, data = "", "", "", ""
+		}
+		return txOp(fmt.Sprintf("Mint(%s,%s,%s)", q(denom), q(id), by.Name), s(by), pnfttypes.NewMsgMintPNFTRequest(denom, id, "tok-"+by.Name, desc, uri, hash, by.Bech, data))
 	}
 	ops = append(ops,
 		createDenom("d", A, A.Bech), createDenom("d", B, B.Bech), createDenom("dd", A, A.Bech),
